@@ -143,7 +143,7 @@ def case(W, cfg):
                 W.equal("order-independent:" + t, g, b)
             else:
                 W.require("order-independent:" + t, g == b, "%r under one set/table order, %r under the canonical one" % (g, b))
-                W.record("order-independent:" + t, [str(b)])
+                W.record("order-independent:" + t, [str(json.loads(json.dumps(b, default=str)))])  # as the float run sees it (JSON: tuples are lists)
         return
     # float mode: fresh interpreters under real hash seeds, unmodified code
     purpose = getattr(W, "purpose", "consistency")
